@@ -216,6 +216,23 @@ var (
 	})
 )
 
+// c16Ver encodes on the driver whatever it holds but decodes, on a worker, only payload version 1: an argument problem that
+// only the receiving side can see.
+type c16Ver struct{ Version int }
+
+func (v c16Ver) MarshalBinary() ([]byte, error) { return []byte{byte(v.Version)}, nil }
+func (v *c16Ver) UnmarshalBinary(b []byte) error {
+	if len(b) != 1 || b[0] != 1 {
+		return fmt.Errorf("c16Ver: unsupported payload version")
+	}
+	v.Version = int(b[0])
+	return nil
+}
+
+var c16E3 = bigslice.Func(func(v c16Ver) bigslice.Slice {
+	return bigslice.Const(1, []int64{int64(v.Version)}, []int64{0})
+})
+
 func runC16e2e(c string) string {
 	e2eMu.Lock()
 	defer e2eMu.Unlock()
@@ -238,6 +255,9 @@ func runC16e2e(c string) string {
 	case "E2":
 		fn = c16E2
 		args = []interface{}{make(chan int, 3)}
+	case "E3":
+		fn = c16E3
+		args = []interface{}{c16Ver{Version: atoi(strings.TrimPrefix(f[1], "ver:"))}}
 	}
 	type rr struct {
 		res *exec.Result
